@@ -2899,3 +2899,22 @@ package go_clipper2
 //@   nosafety
 //@   opaque clipperD.AddPaths clipperD.ExecutePolyTreeD
 //@   panics precOf(precisionV) != 0 && (precOf(precisionV) < -8 || precOf(precisionV) > 8)
+
+// checkEdges (C06): the post-pass removes only vertices that are collinear with their neighbours, and files a vertex
+// under rectangle edge j (0 left, 1 top, 2 right, 3 bottom) only if the vertex and its predecessor both lie on the
+// line of that edge - on which side list is decided by isHeadingClockwise (its exact specification is a contract of its own)
+//@ spec onEdgeLine(pt Point64, rec Rect64, j int) bool = ite(j == 0, pt.X == rec.left, ite(j == 1, pt.Y == rec.top, ite(j == 2, pt.X == rec.right, pt.Y == rec.bottom)))
+//@ spec edgeBits(pt Point64, rec Rect64) int = ite(pt.X == rec.left, 1, ite(pt.X == rec.right, 4, 0)) + ite(pt.Y == rec.top, 2, ite(pt.Y == rec.bottom, 8, 0))
+//@ spec bitOf(x int, b int) int = ite(b == 0, x%2, ite(b == 1, (x/2)%2, ite(b == 2, (x/4)%2, (x/8)%2)))
+//@ func RectClip64.checkEdges
+//@   props C06 C03
+//@   nosafety
+//@   assumes len(r.edges) == 8 && forallp(q, OutPt2, q.next != nil && q.prev != nil && dom(q.pt, 29))
+//@   loop 0 invariant [ring] len(r.edges) == 8 && forallp(q, OutPt2, q.next != nil && q.prev != nil && dom(q.pt, 29))
+//@   loop 0.0 invariant [ring] op2 != nil && op != nil && len(r.edges) == 8 && forallp(q, OutPt2, q.next != nil && q.prev != nil && dom(q.pt, 29))
+//@   loop 0.0 step [only-vertices-collinear-with-their-neighbours-are-removed] (old(op2.prev.next) == old(op2) && old(op2.prev).next != old(op2)) ==> isCollinear(old(op2.prev.pt), old(op2.pt), old(op2.next.pt))
+//@   loop 0.0 step [points-are-never-moved] forallp(q, OutPt2, q.pt == old(q.pt))
+//@   loop 0.1 invariant [edge-sets-are-four-bit-sets] 0 <= edgeSet1 && edgeSet1 < 16 && len(r.edges) == 8 && op2 != nil && forallp(q, OutPt2, q.next != nil && q.prev != nil)
+//@   loop 0.1.0 invariant [edge-sets-are-four-bit-sets] 0 <= j && j <= 4 && 0 <= edgeSet1 && edgeSet1 < 16 && int(edgeSet2) == edgeBits(op2.pt, r.rect) && 0 <= combinedSet && combinedSet < 16 && bitOf(int(combinedSet), 0) == bitOf(int(edgeSet1), 0)*bitOf(int(edgeSet2), 0) && bitOf(int(combinedSet), 1) == bitOf(int(edgeSet1), 1)*bitOf(int(edgeSet2), 1) && bitOf(int(combinedSet), 2) == bitOf(int(edgeSet1), 2)*bitOf(int(edgeSet2), 2) && bitOf(int(combinedSet), 3) == bitOf(int(edgeSet1), 3)*bitOf(int(edgeSet2), 3) && len(r.edges) == 8 && op2 != nil
+//@   loop 0.1.0 step [a-vertex-is-filed-under-an-edge-only-if-it-lies-on-that-edge-line-and-the-vertex-visited-before-it-did-too] (len(r.edges[old(j)*2]) != old(len(r.edges[j*2])) || len(r.edges[old(j)*2+1]) != old(len(r.edges[j*2+1]))) ==> (onEdgeLine(op2.pt, r.rect, old(j)) && bitOf(int(edgeSet1), old(j)) == 1)
+//@   loop 0.1.0 step [edges-are-tried-in-order] j == old(j) + 1
